@@ -185,7 +185,12 @@
     proof {
         // the block that is about to leave the window (if any) has just been sanitised; the hook does not name the
         // variable of the `if let`, the facts come from the contracts of dropped_block and remove_invalid_checks
-        if kbd >= 0 { assert(kbd * 256 == h_lo(h0)); assert(h_lo(h0) / 256 == kbd) by (nonlinear_arith) requires kbd * 256 == h_lo(h0); assert(hb_sane(sr, h0, kbd)); }
+        if kbd >= 0 {
+            assert(h_lo(h0) == kbd * 256 && h_lo(h0) / 256 == kbd) by {
+                assert(((h0.num_blocks - h0.num_free_blocks) * 256) / 256 == h0.num_blocks - h0.num_free_blocks) by (nonlinear_arith);
+            }
+            assert(hb_sane(sr, h0, kbd));
+        }
         else { assert(sr == old(self).states@); }
     }
 //@}
@@ -193,8 +198,7 @@
     let ghost s1 = self.states@;
     proof {
         lemma_window(*helper);
-        let nb = h0.num_blocks as int;
-        assert((nb + 1) * 256 == nb * 256 + 256) by (nonlinear_arith);
+        lemma_lo_step(h0, *helper);
         assert(h_hi(*helper) == h_hi(h0) + 256);
     }
 //@}
@@ -226,10 +230,8 @@
         // stage B
         let nb = h0.num_blocks as int; let nf = h0.num_free_blocks as int;
         assert(s1 == sr);
-        if nb >= nf {
-            assert(h_lo(h0) == kbd * 256 && kbd == nb - nf);
-            assert(h_lo(*helper) == (nb + 1 - nf) * 256);
-        } else { assert(h_lo(*helper) == 0 && h_lo(h0) == 0); }
+        lemma_lo_step(h0, *helper);
+        if nb >= nf { assert(kbd == nb - nf && h_lo(h0) / 256 == kbd); }
         assert forall|x: int| 0 <= x < old(self).states@.len() && !(h_lo(*helper) > h_lo(h0) && in_block(x, h_lo(h0) / 256) && hfree(h0, x)) implies
                 st_check(#[trigger] self.states@[x]) == st_check(old(self).states@[x]) by {
             assert(self.states@[x] == sr[x]);
@@ -255,9 +257,6 @@
 //@}
 //@fn build_double_array
 //@rules R9 R6b R13b R7 R5 R18
-//@pre{
-#[verifier::exec_allows_no_decreases_clause]
-//@}
 //@ret r
 //@head{
     requires old(self).states@.len() == 0, old(self).num_free_blocks >= 1, nfa_tree(*nfa)
@@ -308,7 +307,10 @@
         bwb(*nfa, self.states@, state_id_map@, inv, bowner, done, -1, 0, Set::empty()), glue(helper, inv, bowner),
         closed_sane(self.states@, inv, bowner, h_lo(helper)),
         stack@.no_duplicates(), forall|k: int| 0 <= k < stack@.len() ==> !done.contains(#[trigger] stack@[k] as int),
+        // termination: every iteration finishes one more NFA state
+        done.subset_of(vstd::set_lib::set_int_range(0, n)), done.len() <= n,
     ensures stack@.len() == 0,
+    decreases n - done.len(),
 //@}
 //@before 1 assert!(state_id != DEAD_STATE_ID);{
     let ghost sid = state_id as int;
@@ -332,6 +334,7 @@
         // a leaf: nothing to place, the state is done
         assert(forall|c: u8| !edges.contains_key(c)) by { assert(edges.dom().len() == 0); assert(edges.dom() =~= Set::<u8>::empty()); }
         lemma_bwb_leaf(*nfa, self.states@, state_id_map@, inv, bowner, done, sid);
+        lemma_done_grows(done, sid, n);
         done = done.insert(sid);
         gstack = stack@;
     }
@@ -348,6 +351,7 @@
         lemma_bwb_finish(*nfa, states_b, self.states@, state_id_map@, inv, bowner, done, sid, base, placed, labels@[0]);
         lemma_closed_frame(states_b, self.states@, inv, inv, bowner, bowner.insert(base@ as int, sid), h_lo(helper));
         bowner = bowner.insert(base@ as int, sid);
+        lemma_done_grows(done, sid, n);
         done = done.insert(sid);
         gstack = stack@;
     }
